@@ -559,5 +559,7 @@ def rule_filesystem(ctx):
 
 
 def run(ctx):
+    from ..calendar_rule import rule_leap
+    ctx.attempt(rule_leap, ctx, "C15.calendar", ['typhon/files/fileset.py', 'typhon/files/handlers/common.py'])
     for r in (rule_order, rule_load, rule_register, rule_format, rule_lookup, rule_entries, rule_filesystem):
         ctx.attempt(r, ctx)
